@@ -12,7 +12,7 @@ from sim.terms import FALSY_OBJECTS, T, skey, tkey, u
 
 ID = "C18"
 LEVEL = "exploration"
-TIERS = {"quick": {"runs": 1600}, "thorough": {"runs": 40000, "wall_cap": 3000}}
+TIERS = {"quick": {"runs": 8000, "wall_cap": 600}, "thorough": {"runs": 250000, "wall_cap": 3300}}
 RULE = (
     "each evaluation is one seeded history (<=40 quick / <=70 thorough interleaved operations of 1-2 AuditableStore wrappers over one "
     "Memory store: add/addN/remove with wildcards/set/commit/rollback through Graph and ConjunctiveGraph handles) executed against "
